@@ -9,11 +9,15 @@ result for every stage (ev = stage4), compared by tools/checks/c04.py."""
 
 
 def plan(tier):
-    return 12 if tier == "quick" else 150
+    return 17 if tier == "quick" else 150
 
 
 # access patterns of the first type along the stage (m = by value, b = by reference, - = not at all), tried first
-PRIORITY = ["mbmb", "mbm", "mmb", "bmbm", "mbbm", "mmbb", "mbmbm", "bmmb", "mmm", "mb-mb", "m-bm", "mbmmb"]
+PRIORITY = ["mbmb", "mbm", "mmb", "bmbm", "mbbm", "mmbb", "mbmbm", "bmmb", "mmm", "mb-mb", "m-bm", "mbmmb",
+            # x = `&mut`: only legal on a never-clone request-scoped value; the stage parameter must then be declared `mut`
+            # (Bindings::get_expr_for_type marks it; the flag does not survive the hand-over through `Next`)
+            "xm", "xbm", "bxxm", "x-m", "xb"]
+MUT_PATTERNS = {"xm", "xbm", "bxxm", "x-m", "xb"}
 
 
 def make(rng, name):
@@ -27,6 +31,9 @@ def make(rng, name):
         types.append({"i": i, "clone": clone, "copy": copy, "cap": None})
         ctors.append({"i": i, "out": i, "life": "request", "cloning": clone and (rng.random() < 0.9 or (i == 0 and idx < len(PRIORITY))), "ins": [],
                       "fallible": False, "async": False, "method": False, "fw": None, "override": None})
+    if idx < len(PRIORITY) and PRIORITY[idx] in MUT_PATTERNS:
+        types[0].update({"clone": False, "copy": False})
+        ctors[0]["cloning"] = False
     pattern = PRIORITY[idx] if idx < len(PRIORITY) else "".join(rng.choices("mb-", weights=[5, 4, 2])[0] for _ in range(rng.choice([3, 4, 4, 5, 6])))
     k = len(pattern) - 1
     n_pre = rng.randrange(0, k + 1)
@@ -35,7 +42,7 @@ def make(rng, name):
         out = []
         ch = pattern[pos]
         if ch != "-":
-            out.append([0, "val" if ch == "m" else "ref"])
+            out.append([0, {"m": "val", "b": "ref", "x": "mut"}[ch]])
         for t in range(1, ntypes):
             m = rng.choices(["val", "ref", None], weights=[5, 4, 2])[0]
             if m:
